@@ -29,6 +29,7 @@ from datetime import datetime, timedelta, timezone
 from . import common
 from . import floatcases as fc
 from . import store_hist as sh
+from . import tieb_stores
 from .common import Check
 from .evutil import EPOCH, US
 
@@ -646,7 +647,8 @@ def main(argv=None):
     ck = Check("C01", argv)
     common.setup_impl_env()
     ck.run_witnesses(["w01", "w03"])
-    proved = ck.prove(extra_targets=["Props/C01own.v", "Model/EventWire.v"])
+    proved = ck.prove(extra_targets=["Props/C01own.v", "Model/EventWire.v"] + tieb_stores.STORES_CODEC[0],
+                      gen_kernels=tieb_stores.STORES_CODEC[1] + tieb_stores.EVENT[1])   # ties A + B
     have_driver = ck.driver("ExC02")
     from . import c01_own
     have_own_driver = c01_own.prepare(ck)
